@@ -9,6 +9,8 @@ an op is the *imported* object, which is exported again at the next level):
   pkl  pickle .pkl / .pkl.gz: every shared shape / image / transform letter, PCA + GMRF models, containers
   imf  image files written by Pillow (independent of menpo) holding all 256 eight-bit values
   imm  images built in memory: uint8, exact k/255 floats, the 1/1024 float grid, masked, boolean
+  proc one fresh interpreter per ordered pair (format imported first, format exported afterwards):
+       import_image -> export_image -> import_image, plus "no empty file left behind"
 
 overwrite histories (history quantified):
   ow   state = content of the files of the directory; ops = export_{landmark ljson, landmark pts, image,
@@ -517,6 +519,56 @@ def mem_image(letter, seed):
     raise ValueError(cls)
 
 
+# process-level histories (Pillow's plugin registry is global to the interpreter and cannot be reset):
+# one FRESH interpreter per ordered pair (format imported first, format exported afterwards)
+PROC_IN_QUICK = ["png", "bmp", "tif", "pgm", "ppm", "pcx"]
+PROC_IN_MORE = ["dib", "tiff"]
+PROC_OUT_QUICK = ["png", "bmp", "tif", "tiff", "pgm", "ppm", "pcx", "gif", "dib"]
+PROC_OUT_MORE = ["pbm"]
+PREINIT_FORMATS = ("png", "bmp", "dib", "pgm", "ppm", "pbm", "gif")  # readable after Pillow's preinit() alone
+PROC_SCRIPT = r"""
+import json, os, sys, warnings
+warnings.simplefilter("ignore")
+out = {}
+try:
+    import numpy as np
+    import menpo.io as mio
+    src, dst, reimport = sys.argv[1], sys.argv[2], sys.argv[3] == "1"
+    def digest(im):
+        lv = np.rint(np.asarray(im.pixels, dtype=float) * 255.0)
+        return {"class": type(im).__name__, "shape": list(im.pixels.shape), "dtype": str(im.pixels.dtype),
+                "levels": lv.astype(int).ravel().tolist(), "maxdev": float(np.abs(im.pixels - lv / 255.0).max())}
+    im = mio.import_image(src)
+    out["import"] = digest(im)
+    try:
+        mio.export_image(im, dst)
+        out["export"] = "ok"
+    except Exception as e:
+        out["export"] = "%s: %s" % (type(e).__name__, e)
+    out["dst_size"] = os.path.getsize(dst) if os.path.exists(dst) else -1
+    if out["export"] == "ok" and reimport:
+        try:
+            b = mio.import_image(dst)
+            out["reimport"] = digest(b)
+            out["reimport_same"] = bool(b.pixels.shape == im.pixels.shape and b.pixels.dtype == im.pixels.dtype and (b.pixels == im.pixels).all())
+        except Exception as e:
+            out["reimport_error"] = "%s: %s" % (type(e).__name__, e)
+except Exception as e:
+    out["fatal"] = "%s: %s" % (type(e).__name__, e)
+print("C16JSON " + json.dumps(out))
+"""
+
+
+def proc_mode(a, b, i):
+    if a == "pgm":
+        return "L"
+    if a == "ppm":
+        return "RGB"
+    if b == "gif":
+        return "L"  # gif quantises RGB to a palette: only greyscale is lossless
+    return ("L", "RGB")[i % 2]
+
+
 MEM_LETTERS = [
     ("Image", 1, "u8"), ("Image", 3, "u8"), ("Image", 1, "levels64"), ("Image", 3, "levels64"), ("Image", 3, "levels64m"), ("Image", 1, "levels32"), ("Image", 3, "levels32"),
     ("Image", 1, "grid64"), ("Image", 3, "grid64"), ("Image", 1, "grid32"), ("Image", 3, "grid32"),
@@ -726,6 +778,13 @@ class C16(Check):
                 out.append(("imf", fmt, mode, norm))
         for letter in MEM_LETTERS:
             out.append(("imm",) + letter)
+        i = 0
+        for a in PROC_IN_QUICK + ([] if quick else PROC_IN_MORE):
+            for b in PROC_OUT_QUICK + ([] if quick else PROC_OUT_MORE):
+                i += 1
+                if a == "ppm" and b == "gif":
+                    continue
+                out.append(("proc", a, proc_mode(a, b, i), b))
         # overwrite histories
         for fam in OW_FAMILIES:
             for init in OW_INITS:
@@ -734,9 +793,6 @@ class C16(Check):
 
     # ------------------------------------------------------------------ build
     def build(self, root):
-        import PIL.Image as PI
-
-        PI.init()  # see assumptions(): all Pillow plugins registered before any export
         d = _new_dir()
         st = {"kind": root[0], "root": root, "dir": d, "gen": 0, "cur": None, "ref": None, "aux": {}}
         kind = root[0]
@@ -754,6 +810,11 @@ class C16(Check):
         elif kind == "imm":
             im, exp, fref = mem_image(root[1:], self.seed)
             st["cur"], st["ref"], st["aux"]["fref"] = im, exp, fref
+        elif kind == "proc":
+            _, a, mode, b = root
+            name = "src.%s.%s" % (mode, a)
+            exp, _extra = write_source(os.path.join(d, name), mode, u8_arrays(self.seed))
+            st["ref"], st["aux"]["srcname"] = exp, name
         elif kind == "ow":
             fam, init = root[1], root[2]
             files = OW_FAMILIES[fam]
@@ -896,6 +957,8 @@ class C16(Check):
         kind = st["kind"]
         if kind != "ow" and level >= 2:
             return []
+        if kind == "proc":
+            return [("fresh-process", "." + st["root"][3])] if level == 0 else []
         if kind == "lj":
             ops = self._rt_ops([".ljson"], level)
             if not hasattr(st["cur"], "n_points"):
@@ -969,6 +1032,8 @@ class C16(Check):
         kind = st["kind"]
         if kind == "ow":
             return self._apply_ow(st, op, verify)
+        if kind == "proc":
+            return self._apply_proc(st, op) if verify else []  # leaves no state behind
         before = _snapshot(st["dir"])
         if kind == "lj":
             fails = self._apply_lj(st, op, verify)
@@ -1182,6 +1247,61 @@ class C16(Check):
         st["cur"] = back
         return fails
 
+    # --- import then export in a fresh interpreter
+    def _apply_proc(self, st, op):
+        import json
+        import subprocess
+        import sys
+
+        import PIL.Image as PI
+        from mc.core import HarnessError
+
+        _, a, mode, b = st["root"]
+        where = "image"
+        src, dst = st["aux"]["srcname"], "out.v1." + b
+        reimport = b != "gif"  # menpo reads gif through ffmpeg (not installed): decoded with Pillow below
+        p = subprocess.run([sys.executable, "-c", PROC_SCRIPT, src, dst, "1" if reimport else "0"], cwd=st["dir"], env=dict(os.environ), capture_output=True, text=True, timeout=300)
+        line = [l for l in p.stdout.splitlines() if l.startswith("C16JSON ")]
+        if not line:
+            raise HarnessError("fresh interpreter gave no result (rc=%s): %s" % (p.returncode, (p.stderr or "")[-400:]))
+        res = json.loads(line[-1][len("C16JSON "):])
+        if "fatal" in res:
+            return [Failure(where, "import-raised", "fresh process: import_image(%s) failed: %s" % (src, res["fatal"]))]
+        exp = st["ref"]
+        want = chan_first(exp)
+        fails = []
+
+        def cmp_digest(dg, what, clause):
+            if dg["shape"] != list(want.shape) or dg["levels"] != want.astype(int).ravel().tolist() or not dg["maxdev"] <= 1e-15:
+                nbad = int((np.array(dg["levels"]) != want.ravel()).sum()) if dg["shape"] == list(want.shape) else -1
+                fails.append(Failure(where, clause, "fresh process, %s -> %s: %s holds %s%s, %d values differ from the source data, max deviation from a level %.3g" % (a, b, what, dg["dtype"], tuple(dg["shape"]), nbad, dg["maxdev"])))
+
+        cmp_digest(res["import"], "the import", "eight-bit-import")
+        if res["export"] != "ok":
+            fails.append(Failure(where, "export-raised", "fresh process: import_image(%s) then export_image(.., %r) raised %s" % (src, dst, res["export"])))
+        if res["dst_size"] == 0:
+            fails.append(Failure(where, "empty-file-left-behind", "fresh process: import_image(%s) then export_image(.., %r) (%s) left an empty file" % (src, dst, res["export"])))
+        if res["export"] == "ok":
+            with PI.open(os.path.join(st["dir"], dst)) as pil:
+                dec = np.asarray(pil.convert("RGB") if pil.mode == "P" and exp.ndim == 3 else pil.convert("L") if pil.mode == "P" else pil)
+            if dec.shape != exp.shape or not np.array_equal(dec, exp):
+                fails.append(Failure(where, "eight-bit-unchanged", "fresh process, %s -> %s: the written file decodes to %s%s, not to the source data" % (a, b, dec.dtype, dec.shape)))
+            if reimport:
+                if "reimport_error" in res:
+                    fails.append(Failure(where, "import-raised", "fresh process: re-import of %r raised %s" % (dst, res["reimport_error"])))
+                else:
+                    cmp_digest(res["reimport"], "the re-import", "eight-bit-unchanged")
+                    if not res["reimport_same"]:
+                        fails.append(Failure(where, "eight-bit-unchanged", "fresh process, %s -> %s: re-import differs from the import that was exported" % (a, b)))
+        if os.path.exists(os.path.join(st["dir"], dst)):
+            os.remove(os.path.join(st["dir"], dst))
+        self.note("proc:%s" % ("ok" if not fails else "failed"))
+        self.note("proc:in.%s" % a)
+        self.note("proc:out.%s" % b)
+        if a in PREINIT_FORMATS and b not in PREINIT_FORMATS:
+            self.note("proc:preinit-import-then-late-plugin-export")
+        return fails
+
     # --- overwrite histories
     def _ow_obj(self, st, exporter, which):
         key = (exporter, which)
@@ -1291,6 +1411,7 @@ class C16(Check):
     def vacuity(self, notes, stats):
         need = ["lj:ok", "lj:nan-roundtrip", "lj:labels-order-checked", "lj:edges-nonempty", "lj:edges-empty", "lj:unicode-group", "lj:groups1", "lj:groups2", "lj:groups3", "lj:gen1",
                 "pts:ok", "pts:nan", "pts:gen1", "pkl:ok:.pkl", "pkl:ok:.pkl.gz", "pkl:gen1", "pkl:class:model", "pkl:class:transform", "pkl:class:image", "pkl:class:shape", "pkl:class:container",
+                "proc:ok", "proc:preinit-import-then-late-plugin-export",
                 "img8:ok", "imgf:ok", "img:gen1", "img:reimport-float", "img:reimport-uint8", "imf-import:float", "imf-import:uint8",
                 "ow:refused-over:foreign", "ow:refused-over:own"]
         for e in ("ljson", "pts", "image", "pkl", "pklgz", "gif"):
@@ -1300,6 +1421,9 @@ class C16(Check):
         need += ["owsp:written:%s" % s for s in PLAIN_SP]
         need += ["sp:%s" % s for s in PLAIN_SP]
         need += ["img8:out.%s" % o for o in (LOSSLESS_OUT[:6] if self.tier == "quick" else LOSSLESS_OUT)]
+        quick = self.tier == "quick"
+        need += ["proc:in.%s" % a for a in PROC_IN_QUICK + ([] if quick else PROC_IN_MORE)]
+        need += ["proc:out.%s" % b for b in PROC_OUT_QUICK + ([] if quick else PROC_OUT_MORE)]
         out = ["outcome %s never produced" % n for n in need if not notes.get(n)]
         return out
 
@@ -1326,6 +1450,7 @@ class C16(Check):
             "file_name_kinds": dict(NAMEKINDS),
             "image_file_letters": len(FILE_LETTERS_QUICK) + (0 if self.tier == "quick" else len(FILE_LETTERS_MORE)),
             "image_memory_letters": len(MEM_LETTERS),
+            "fresh_process_pairs": by.get("proc", 0),
             "lossless_output_formats": LOSSLESS_OUT[:6] if self.tier == "quick" else LOSSLESS_OUT,
             "overwrite_families": {k: [n for n, _ in v] for k, v in OW_FAMILIES.items()},
             "overwrite_initial_states": OW_INITS,
@@ -1335,7 +1460,7 @@ class C16(Check):
         return [
             "LJSON / PTS letters have 5 points (2 for the small overwrite letter); LJSON is explored in 2-D and 3-D only (the exporter writes no points for other dimensions), PTS in 2-D only (two columns)",
             "shapes without points are not exported (the LJSON importer indexes the first point)",
-            "all Pillow plugins are registered (PIL.Image.init()) before every export: pil_exporter calls init() only when no plugin at all is registered, so after a mere PNG import it refuses .tif/.tiff/.pcx/.im with ValueError",
+            "Pillow's plugin registry is global to the interpreter: what was imported before an export is explored as a process-level history, one fresh interpreter per ordered (imported format, exported format) pair doing import_image -> export_image -> import_image (D31); inside the exploring workers the registry is whatever earlier roots left",
             "lossy or palette-quantising formats (jpg, gif for RGB) are outside the round-trip statement; gif is re-read with Pillow only (menpo reads gif through ffmpeg)",
             "export_video is explored for the refusal path only (no ffmpeg): enabled only on existing paths with overwrite=False",
             "spellings that need expanduser / expandvars are explored for the refusal clause only (on success the landmark / image exporters open the unexpanded path)",
